@@ -31,6 +31,18 @@ type ev struct {
 	sender, nonce string
 	ts            int64
 	macOK         bool
+	respell       bool // valid MAC bytes, hex re-spelled in upper case
+	bigPayload    int  // forward only: command payload size (widens check/record windows)
+}
+
+func spell(mac string, e ev) string {
+	if e.respell {
+		mac = strings.ToUpper(mac)
+	}
+	if !e.macOK {
+		mac = badMAC(mac)
+	}
+	return mac
 }
 
 type target interface {
@@ -61,10 +73,7 @@ func newCI(tol, ttl time.Duration) *ciTarget {
 	return t
 }
 func (t *ciTarget) deliver(e ev) string {
-	mac := security.ComputeCacheInvalidateHMAC(secret, e.nonce, e.sender, clusterName, e.ts)
-	if !e.macOK {
-		mac = badMAC(mac)
-	}
+	mac := spell(security.ComputeCacheInvalidateHMAC(secret, e.nonce, e.sender, clusterName, e.ts), e)
 	req := httptest.NewRequest("POST", api.CacheInvalidatePath, nil)
 	req.Header.Set("X-Arc-Node-ID", e.sender)
 	req.Header.Set("X-Arc-Cluster", clusterName)
@@ -97,21 +106,18 @@ func (t *coTarget) deliver(e ev) string {
 	defer cli.Close()
 	done := make(chan struct{})
 	payload := []byte(`{"type":1}`)
+	if e.bigPayload > 0 {
+		payload = append(payload, make([]byte, e.bigPayload)...)
+	}
 	go func() {
 		defer close(done)
 		defer srv.Close()
 		switch t.kind {
 		case "forward":
-			mac := security.ComputeForwardHMAC(secret, e.nonce, e.sender, clusterName, payload, e.ts)
-			if !e.macOK {
-				mac = badMAC(mac)
-			}
+			mac := spell(security.ComputeForwardHMAC(secret, e.nonce, e.sender, clusterName, payload, e.ts), e)
 			t.c.VerifForwardApply(srv, &protocol.ForwardApplyRequest{CommandJSON: payload, NodeID: e.sender, Nonce: e.nonce, Timestamp: e.ts, HMAC: mac})
 		case "sync":
-			mac := security.ComputeReplicateSyncHMAC(secret, e.nonce, e.sender, clusterName, 7, e.ts)
-			if !e.macOK {
-				mac = badMAC(mac)
-			}
+			mac := spell(security.ComputeReplicateSyncHMAC(secret, e.nonce, e.sender, clusterName, 7, e.ts), e)
 			t.c.VerifReplicateSync(srv, &protocol.ReplicateSync{ReaderID: e.sender, LastKnownSequence: 7, Nonce: e.nonce, ClusterName: clusterName, Timestamp: e.ts, HMAC: mac})
 		}
 	}()
@@ -160,16 +166,10 @@ func (t *lcTarget) deliver(e ev) string {
 	var m *protocol.Message
 	switch t.kind {
 	case "lc-forward":
-		mac := security.ComputeForwardHMAC(secret, e.nonce, e.sender, clusterName, payload, e.ts)
-		if !e.macOK {
-			mac = badMAC(mac)
-		}
+		mac := spell(security.ComputeForwardHMAC(secret, e.nonce, e.sender, clusterName, payload, e.ts), e)
 		m = &protocol.Message{Type: protocol.MsgForwardApply, Payload: &protocol.ForwardApplyRequest{CommandJSON: payload, NodeID: e.sender, Nonce: e.nonce, Timestamp: e.ts, HMAC: mac}}
 	default:
-		mac := security.ComputeReplicateSyncHMAC(secret, e.nonce, e.sender, clusterName, 0, e.ts)
-		if !e.macOK {
-			mac = badMAC(mac)
-		}
+		mac := spell(security.ComputeReplicateSyncHMAC(secret, e.nonce, e.sender, clusterName, 0, e.ts), e)
 		m = &protocol.Message{Type: protocol.MsgReplicateSync, Payload: &protocol.ReplicateSync{ReaderID: e.sender, LastKnownSequence: 0, Nonce: e.nonce, ClusterName: clusterName, Timestamp: e.ts, HMAC: mac}}
 	}
 	if err := protocol.SendMessage(conn, m, 2*time.Second); err != nil {
@@ -285,6 +285,9 @@ func main() {
 			mo := 0
 			if e.macOK {
 				mo = 1
+				if e.respell {
+					mo = 2
+				}
 			}
 			op := fmt.Sprintf("hmsg %s %d %s %s %d %d", st.kind, e.now, e.sender, e.nonce, e.ts, mo)
 			c.Op(op, fmt.Sprintf("%s len=%d", v, tg.len()))
@@ -329,9 +332,9 @@ func main() {
 					t1 := base + 1000*sec + sub
 					ts := t1/sec + off
 					nonce := fmt.Sprintf("g%d", i)
-					evs := []ev{{t1, "nodeA", nonce, ts, true}, {t1 + gap, "nodeA", nonce, ts, true}}
+					evs := []ev{{now: t1, sender: "nodeA", nonce: nonce, ts: ts, macOK: true}, {now: t1 + gap, sender: "nodeA", nonce: nonce, ts: ts, macOK: true, respell: i%2 == 0}}
 					if gap > 61*sec {
-						evs = []ev{evs[0], {t1 + gap/2, "nodeB", "x" + nonce, (t1 + gap/2) / sec, true}, evs[1]}
+						evs = []ev{evs[0], {now: t1 + gap/2, sender: "nodeB", nonce: "x" + nonce, ts: (t1 + gap/2) / sec, macOK: true}, evs[1]}
 					}
 					runCase(st, evs)
 				}
@@ -373,7 +376,7 @@ func main() {
 						acc := 0
 						for i, now := range []int64{t1, t1 + gap} {
 							verifclock.Set(now)
-							e := ev{now, "reader-7", nonce, ts, true}
+							e := ev{now: now, sender: "reader-7", nonce: nonce, ts: ts, macOK: true, respell: i == 1 && caseNo%2 == 0}
 							v := vh.Guard(func() string { return tg.deliver(e) })
 							op := fmt.Sprintf("lmsg %s %d %s %s %d 1", kind, now, e.sender, e.nonce, ts)
 							c.Op(op, v)
@@ -394,6 +397,63 @@ func main() {
 			}
 		}
 		lcNow += 0
+	}
+	// concurrent copies of ONE signed request on separate connections: check-and-record must be one
+	// atomic step (Track under the cache mutex), so exactly one copy may be accepted. A large command
+	// payload widens any window between a separate "seen?" check and the later record.
+	{
+		rounds := 3
+		if c.Thorough() {
+			rounds = 12
+		}
+		for _, st := range sites {
+			for rd := 0; rd < rounds; rd++ {
+				verifclock.Set(base + int64(20000+rd)*sec)
+				now := base + int64(20000+rd)*sec
+				var tg target
+				big := 0
+				switch st.kind {
+				case "cacheinv":
+					tg = newCI(time.Duration(st.tolNs), time.Duration(st.ttlNs))
+				default:
+					tg = &coTarget{c: cluster.VerifC26Coordinator(secret, clusterName, "local", time.Duration(st.ttlNs)), kind: st.kind}
+					if st.kind == "forward" {
+						big = 8 << 20
+					}
+				}
+				e := ev{now: now, sender: "nodeA", nonce: fmt.Sprintf("cc%d", rd), ts: now / sec, macOK: true, bigPayload: big}
+				const copies = 8
+				res := make([]string, copies)
+				start := make(chan struct{})
+				doneCh := make(chan int, copies)
+				for g := 0; g < copies; g++ {
+					go func(g int) {
+						<-start
+						res[g] = vh.Guard(func() string { return tg.deliver(e) })
+						doneCh <- g
+					}(g)
+				}
+				close(start)
+				for g := 0; g < copies; g++ {
+					<-doneCh
+				}
+				acc := 0
+				for _, v := range res {
+					if v == "accepted" {
+						acc++
+					}
+				}
+				c.Tag(fmt.Sprintf("conc:%s:accepted=%d", st.kind, acc))
+				canon := fmt.Sprintf("concurrent %s: %d simultaneous copies of (sender=nodeA nonce=cc%d ts=%d payload=%dB) at now=%d -> %d accepted", st.kind, copies, rd, now/sec, big, now, acc)
+				if acc > 1 {
+					c.Fail("concurrent-replay-accepted:"+st.kind, canon, canon)
+				}
+				if acc == 0 {
+					c.Fail("concurrent-copies-all-rejected:"+st.kind, canon, canon)
+				}
+				c.Case(canon, true)
+			}
+		}
 	}
 	n := 120
 	if c.Thorough() {
@@ -420,9 +480,10 @@ func main() {
 				if r.Chance(10) {
 					e.macOK = false
 				}
+				e.respell = r.Chance(30)
 			} else {
 				off := vh.Pick(r, []int64{-tolSec - 1, -tolSec, -2, 0, 3, tolSec, tolSec + 1, int64(r.Intn(int(2*tolSec+1))) - tolSec})
-				e = ev{now, vh.Pick(r, []string{"nodeA", "nodeB"}), fmt.Sprintf("n%d", r.Intn(4)), now/sec + off, !r.Chance(10)}
+				e = ev{now: now, sender: vh.Pick(r, []string{"nodeA", "nodeB"}), nonce: fmt.Sprintf("n%d", r.Intn(4)), ts: now/sec + off, macOK: !r.Chance(10)}
 			}
 			evs = append(evs, e)
 			hist = append(hist, e)
